@@ -182,7 +182,7 @@ CHECKS = {
              "is added; a deferred update leaves the old stream untouched and queues one start; start keeps sounding notes; the "
              "last of several due starts wins. Correspondence on histories + exact grid oracle.",
         design="DESIGN.md §3 C05",
-        note=SCHED_NOTE + " Calls made from inside callbacks are the same applyOp on the timeline as it stands in the tick in progress (callback_runs_ops, callback_update_time): the theorems, stated for an arbitrary timeline state, apply verbatim; that the real callbacks see that state is checked by the correspondence.",
+        note=SCHED_NOTE + " Calls made from inside callbacks are the same applyOp on the timeline as it stands in the tick in progress (callback_runs_ops, callback_update_time): the theorems, stated for an arbitrary timeline state, apply verbatim; that the real callbacks see that state is checked by the correspondence. Interpolating tracks are outside the scheduler model: 'from that tick on only the new stream' is proved for them on the interpolation model of C15 extended by Track.start (interpolating_update_plays_only_the_new_stream, induction over ticks with a simulation relation) and its conclusion is observed on the real Timeline against two reference runs (c05.interpolation_update_cases).",
         technique="Lean 4 arithmetic/decision-logic theorems + exact grid oracle + differential correspondence"),
     "C06": dict(
         text="Theorems: count never passes a non-zero limit and each pulled event counts once; exhaustion is sticky and consumes "
